@@ -89,11 +89,9 @@ func c12Log2Class(v uint32) string {
 	case v < 1<<16:
 		return "<2^16"
 	}
-	k := 0
-	for x := v; x > 1; x >>= 1 {
-		k++
-	}
-	return "2^" + strconv.Itoa(k)
+	// (one class: which size above any DNS message a mutated body happens to carry differs from seed to seed;
+	// the sizes 2^24, 2^28 and 2^32-1 have their own children and fixed signatures)
+	return ">=2^16"
 }
 
 // c12FieldClass: which field of the request explains an allocation.
@@ -105,7 +103,11 @@ func c12FieldClass(data []byte) string {
 	if c == 'r' && len(data) >= 6 {
 		if d, err := enc.Base32Encoding.Decode(data[6:]); err == nil && len(d) >= 4 {
 			v := uint32(d[0]) | uint32(d[1])<<8 | uint32(d[2])<<16 | uint32(d[3])<<24
-			return "r:fragsize=" + c12Log2Class(v)
+			if cls := c12Log2Class(v); cls[0] == '<' || cls[0] == '>' {
+				return "r:fragsize" + cls
+			} else {
+				return "r:fragsize=" + cls
+			}
 		}
 	}
 	return fmt.Sprintf("%c:namelen~%d", c, len(data)/64*64)
@@ -232,9 +234,9 @@ func (s *c12Server) one(fx *c12Fx, item, idx int, sp *c12Spec) bool {
 	if composePanic {
 		class = "name-ends-in-escape-after-domain-cut"
 	}
-	// a fragment-size probe that the sender is entitled to and that is larger than any DNS message
+	// a fragment-size probe that the sender is entitled to and that asks for megabytes
 	// is the subject of the bomb children: in this process it would take the other cases down with it
-	if id, size := c12ProbeSize(data); id >= 0 && size > 65535 && id < len(fx.lst.connections) {
+	if id, size := c12ProbeSize(data); id >= 0 && size >= 1<<22 && id < len(fx.lst.connections) {
 		if u := fx.lst.connections[id]; u != nil && u.remoteAddress.String() == addr.String() {
 			rec.Stat("server_big_probes_left_to_the_bomb_children", 1)
 			return true
